@@ -25,4 +25,13 @@ def View.takeTo (v : View) (n : Nat) : Option View × View :=
 def View.takeFrom (v : View) (n : Nat) : Option View × View :=
   if n > v.len then (none, v) else (some ⟨v.off + n, v.len - n⟩, ⟨v.off, n⟩)
 
+/-- `slice_take_first(&mut v)` of `iter.rs` (`split_first`): `None`, and `v` untouched, when `v` is empty;
+otherwise the slot of the first element, and `v` keeps the rest.  (second component = `v` afterwards) -/
+def View.takeFirst (v : View) : Option Nat × View :=
+  if v.len > 0 then (some v.off, ⟨v.off + 1, v.len - 1⟩) else (none, v)
+
+/-- `slice_take_last(&mut v)` (`split_last`) -/
+def View.takeLast (v : View) : Option Nat × View :=
+  if v.len > 0 then (some (v.off + v.len - 1), ⟨v.off, v.len - 1⟩) else (none, v)
+
 end CircBuf
